@@ -61,8 +61,8 @@ CFG = dict(
                          "real:reconnect-accepted-after:disconnect": 50, "real:reconnect-accepted-after:notification": 8,
                          "real:reconnect-accepted-after:hold-expiry": 2, "teardown-kind:HoldExpiry": 2}),
     quick=[e2("exh", "event::verif::c07::run", 8, 300, part="exhaustive", nshards=8, depth=4),
-           e2("rnd", "event::verif::c07::run", 2, 60, part="random", random=10000),
-           e2("real", "event::verif::c07b::run", 4, 150, scenarios=120, hold_expiry=2)],
+           e2("rnd", "event::verif::c07::run", 2, 180, part="random", random=10000),
+           e2("real", "event::verif::c07b::run", 4, 450, scenarios=120, hold_expiry=2)],
     thorough=[e2("exh", "event::verif::c07::run", 16, 3000, part="exhaustive", nshards=16, depth=5),
               e2("rnd", "event::verif::c07::run", 4, 600, part="random", random=250000),
               e2("real", "event::verif::c07b::run", 6, 600, scenarios=400, hold_expiry=6)],
